@@ -123,6 +123,9 @@ func init() {
 	log.SetOutput(ioutil.Discard)
 	log.SetLevel(log.ErrorLevel)
 	log.AddHook(theHook)
+	// logrus' Fatal would os.Exit the harness: turn it into a panic of the calling goroutine,
+	// which the daemon wrapper records as a crash of the daemon
+	log.StandardLogger().ExitFunc = func(code int) { panic(fmt.Sprintf("log.Fatal (exit %d): %s", code, theHook.Last())) }
 }
 
 type Daemon struct {
